@@ -48,6 +48,7 @@ PlanTotals(p) ==
   LET RECURSIVE S(_)
       S(i) == IF i > Len(p.instr) THEN 0
               ELSE (IF p.instr[i].src = 0 THEN SumSeq(p.instr[i].v) ELSE 0) + S(i + 1)
-  IN /\ p.vstock = S(1)
-     /\ p.vdiluent = p.R * SumSeq(p.vmax) - S(1)
+      allv == SumSeq([i \in 1..Len(p.instr) |-> SumSeq(p.instr[i].v)])
+  IN /\ p.vstock = S(1)                                   \* exactly what the stock transfers take
+     /\ p.vdiluent >= p.R * SumSeq(p.vmax) - allv          \* enough diluent to fill every well up to vmax
 =============================================================================
